@@ -16,15 +16,35 @@ import (
 	"time"
 )
 
-func (o *Obligation) smt() string {
+func (o *Obligation) smt() string { return o.smtWith("") }
+
+// smtWith: the query with an extra assumption (used to split a proof by cases).
+func (o *Obligation) smtWith(extra string) string {
 	c := o.ctx
 	var sb strings.Builder
 	sb.WriteString("(set-option :produce-models true)\n(set-logic ALL)\n")
+	// text slicing: a goal that does not talk about texts is proved without the
+	// (quantifier-heavy) text facts; dropping assumptions is always sound.
+	slice := !strings.Contains(o.Goal, "(txt ")
+	if slice {
+		for _, d := range c.decls[:o.NDefs] {
+			if strings.HasPrefix(d, "(define-fun ") && strings.Contains(d, "(txt ") {
+				slice = false
+				break
+			}
+		}
+	}
 	for _, d := range c.decls[:o.NDefs] {
 		if d != "" {
+			if slice && strings.HasPrefix(d, "(assert ") && strings.Contains(d, "(txt ") {
+				continue
+			}
 			sb.WriteString(d)
 			sb.WriteByte('\n')
 		}
+	}
+	if extra != "" {
+		sb.WriteString("(assert " + extra + ")\n")
 	}
 	sb.WriteString("(assert (not ")
 	sb.WriteString(o.Goal)
@@ -99,6 +119,31 @@ func solveOne(o *Obligation, dir string, idx int, secs int) {
 			o.Model = getModel(file, text)
 		}
 		return
+	}
+	// proof by cases along the last control-flow join (the joined state is an if-then-else
+	// of the edge states; with the edge condition asserted the solver sees one of them)
+	if len(o.Cases) > 1 && st != "error" {
+		cases := append([]string{}, o.Cases...)
+		cases = append(cases, not(or(o.Cases...))) // exhaustive by construction
+		all := true
+		for k, cs := range cases {
+			cf := filepath.Join(dir, fmt.Sprintf("o%05d.c%d.smt2", idx, k))
+			if err := os.WriteFile(cf, []byte(o.smtWith(cs)), 0o644); err != nil {
+				all = false
+				break
+			}
+			cst, _, cd := runSolver(context.Background(), solvers[0], cf, secs, false)
+			os.Remove(cf)
+			o.Secs += cd
+			if cst != "unsat" {
+				all = false
+				break
+			}
+		}
+		if all {
+			o.Status, o.Solver, o.Output = "unsat", solvers[0].name+" (by cases)", "unsat"
+			return
+		}
 	}
 	// race
 	ctx, cancel := context.WithCancel(context.Background())
